@@ -1,7 +1,7 @@
 """C33  Lifecycle hooks run once per saved change and their edits are saved."""
 import ast
 from ..loader import dotted, walk_no_nested, norm, head, calls_in
-from ..q import nodes_calling, is_call_to
+from ..q import nodes_calling, is_call_to, assign_pairs
 
 EXPLANATION = """
 Static clauses decided (necessary conditions of C33):
@@ -74,7 +74,7 @@ def run(ctx):
             ok = bool(after) and g.must_pass_after(s, after, exits=[g.exit])
             ctx.ob('C33-AFTER.flush-delivers-after-hooks', f, s.ast, ok, '' if ok else '%s can return after saving without call_after_save_hooks()' % qual, node=s.ast)
     ca = repo.fn(CORE, 'SessionCache.call_after_save_hooks'); g = cg.cfg(ca); recv = ca.recv
-    swap = [x for x in g.nodes if x.kind == 'stmt' and isinstance(x.ast, ast.Assign) and any(dotted(t) == recv + '.saved_objects' for t in x.ast.targets) and norm(x.ast.value) == '[]']
+    swap = [x for x in g.nodes if x.kind == 'stmt' and any(dotted(t) == recv + '.saved_objects' and v is not None and norm(v) in ('[]', 'list()') for t, v in assign_pairs(x.ast))]
     loops = [x for x in g.nodes if x.kind == 'iter']
     ok = bool(swap) and len(loops) == 1 and g.dominated(loops[0], swap) and dotted(loops[0].ast.iter) != recv + '.saved_objects'
     ctx.ob('C33-AFTER.records-delivered-once', ca, swap[0].ast if swap else ca.node, ok,
